@@ -113,4 +113,17 @@ def run(ctx):
         else:
             ctx.assume("panic site %s @%s: %s" % (o.fn.path.replace("wtransport::", ""), o.loc, txt[:120]))
     shared.spawned_task_tables(ctx, "C09-R6")
+    # everything the worker task (and the tasks it spawns) runs on bytes from the peer: a panic there kills the worker before it stores a
+    # result, so every waiter is left without a cause. The decoder obligations of C11 restricted to what the worker can reach must be discharged.
+    import rules.C11 as c11
+    roots = [A.fn("wtransport::driver::worker::Worker::run_impl::{closure#0}")]
+    wclo = c11.closure_of(A, roots)
+    entries = []
+    for rx in c11.ENTRY:
+        entries += A.find(rx)
+    dclo = c11.closure_of(A, entries)
+    both = {p for p in wclo if p in dclo}
+    ctx.floor("C09-R6", "decoder functions reachable from the worker", len(both), 30)
+    n_ob, n_gen, n_lem = c11.sweep(ctx, "C09-R6", A, dclo, c11.Support(ctx), only=both)
+    ctx.count("worker_reachable_decoder_obligations", n_ob)
     ctx.assume("O4: Endpoint::accept `.expect(\"Endpoint cannot be closed\")` panics after Endpoint::close — endpoint-level, outside C09's `calls on the connection and its streams`")
